@@ -215,6 +215,17 @@ def writer(out, steps, wrote=None):
     def gen(a):
         for st in steps:
             op = st.get('op', 'w')
+            if op == 'loop':
+                d = st['d']
+                for _ in range(int(st.get('n', 1))):
+                    yield ('sleep', st.get('dt', 1))
+                    try:
+                        yield ('write', out, d)
+                    except OSError:
+                        return
+                    if wrote is not None:
+                        wrote.append(d)
+                continue
             if 'at' in st and st['at'] is not None:
                 yield ('at', st['at'][0], st['at'][1])
             elif st.get('dt'):
@@ -238,6 +249,9 @@ def writer(out, steps, wrote=None):
                 yield ('stop',)
             elif op == 'pause':
                 yield ('pause',)
+            elif op == 'echo_off':
+                out.pty.attr[3] &= ~8      # ECHO
+                a.k.kick()
             elif op == 'sleep':
                 pass
         # falling off the end: exit(0) if it is a process
